@@ -937,12 +937,12 @@ class Parsent(object):
     def reinit(self,
                msg=None,
                dictable=None,
-               method=u'GET'):
+               method=None):
         """
         Reinitialize Instance
         msg = bytearray of request msg to parse
         dictable = Boolean flag If True attempt to convert json body
-        method = method verb of associated request
+        method = method verb of associated request, None keeps the current one
         """
         if msg is not None:
             self.msg = msg
